@@ -2098,6 +2098,13 @@ class GroupBy:
         # Get the appropriate numba function
         func = getattr(numba_funcs, func_name)
 
+        if mask is not None and not pd.api.types.is_bool_dtype(mask):
+            # the row-aligned kernels read the mask as one flag per row
+            raise TypeError(
+                f"{func_name} only supports a boolean mask, got {type(mask).__name__}"
+                f" of dtype {getattr(mask, 'dtype', None)}"
+            )
+
         if self.key_is_chunked:
             print("Unifying chunked group-key before cumulative group-by")
             self._unify_group_key_chunks()
